@@ -208,6 +208,7 @@ def judge(spec, results):
                 return V
             kind = _kind_of(d)
             truth = _dump_rows(d)
+            r.stats['alnlen'] = int(d.f.get('alnlen', 0))
             written = []
             for (f, path), i in zip(spec['outs'], ix['W']):
                 o = r.op(i)
@@ -234,6 +235,8 @@ def judge(spec, results):
     if d0 is None or r.op(ix['X']).rc != 0:
         return V
     truth = _dump_rows(d0)
+    r.stats['alnlen'] = int(d0.f.get('alnlen', 0))
+    r.stats['has_gaps'] = 1 if any(b'-' in row for _, row in truth) else 0
     f1, f2 = spec['pair']
 
     def cmp(step, fmt, dump):
@@ -287,9 +290,22 @@ def oracles_degap(row):
 def job_stats(spec, results):
     r = results['io']
     ix_list = None
-    out = {'pairs': {}, 'formats': {}, 'conversions_skipped_not_recognised_as_alignment': 0, 'width_mod60': {}}
+    out = {'pairs': {}, 'formats': {}, 'width_mod60': {}, 'name_len_max': {}}
+    w = r.stats.get('alnlen')
+    if w:
+        out['width_mod60']['0 (exact multiple)' if w % 60 == 0 else ('1' if w % 60 == 1 else ('59' if w % 60 == 59 else 'other'))] = 1
+    if 'has_gaps' in r.stats:
+        out['alignments_with_gaps' if r.stats['has_gaps'] else 'gap_free_alignments'] = 1
+    nm = max(len(x) for x in spec['wl']['names'])
+    out['name_len_max']['<=30' if nm <= 30 else ('<=200' if nm <= 200 else ('<=256' if nm <= 256 else '>256'))] = 1
     if spec['kind'] == 'C06':
         out['pairs']['%s->%s' % tuple(spec['pair'])] = 1
+        if not r.crashed():
+            z = r.op(spec.get('_ix', {}).get('Z1', -1)) if spec.get('_ix') else None
+    else:
+        out['evaluations'] = len(spec['outs'])       # one evaluation per written file
+        for f, path in spec['outs']:
+            out['formats'][f] = out['formats'].get(f, 0) + 1
     return out
 
 
